@@ -127,6 +127,18 @@ pub fn eval_on_impl(spec: &CtxSpec, src: Option<&str>, ast: Option<&Sx>) -> Stri
     format!("(res {} {})", outcome, log_to_sx(&l).to_text())
 }
 
+/// How each context variable of a case is handed to the implementation (see `ctx::define`).
+pub fn variables_supplied(case: &Case) -> Vec<String> {
+    let payload = parse_all(&case.payload);
+    let Some(spec) = payload.first().and_then(CtxSpec::from_sx) else { return vec![] };
+    spec.vars
+        .iter()
+        .chain(spec.scopes.iter().flatten())
+        .take(40)
+        .map(|(n, v)| format!("{n}: {}", if crate::ctx::supplied_as_host_data(n, v) { "add_variable(plain Rust data)" } else { "add_variable_from_value(Value)" }))
+        .collect()
+}
+
 /// The implementation's answer to a case, in the same grammar the model driver prints.
 pub fn impl_answer(case: &Case) -> String {
     note_input(&format!("{} {}{}", case.kind, case.src.as_deref().map(|s| format!("src={s:?} ")).unwrap_or_default(), case.payload.chars().take(2000).collect::<String>()));
@@ -534,6 +546,14 @@ fn run_ctx_ops(ctx: &mut cel_interpreter::Context, ops: &[Sx], i: &mut usize, ou
                         let _ = ctx.add_variable(name(&op[1]), t.as_str());
                     }
                     _ => ctx.add_variable_from_value(name(&op[1]), v),
+                }
+            }
+            Some("baddef") => {
+                // a host value the conversion refuses (a map with a `None` key): the call reports
+                // an error and must leave every binding as it was (the model skips the operation)
+                let bad = std::collections::BTreeMap::from([(None::<i64>, 1i64)]);
+                if ctx.add_variable(name(&op[1]), bad).is_ok() {
+                    out.push_str(" accepted-unconvertible-value");
                 }
             }
             Some("push") => {
